@@ -155,7 +155,7 @@ int main()
     for (int k = 0; k < len; k++)
     {
       int nh = (int)H.size();
-      int what = nh == 0 ? 0 : (int)rng.range(0, 6);
+      int what = nh == 0 ? 0 : (int)rng.range(0, 14);
       std::ostringstream os;
       auto pick = [&]() { return (int)rng.range(0, nh - 1); };
       if (what == 0 || nh == 0) { int n = (int)rng.range(0, 4); std::vector<int> v(n); for (auto& x : v) x = (int)rng.range(-9, 9); H.push_back(VectorInt(v)); os << "new:" << vecI(v); }
@@ -165,9 +165,17 @@ int main()
                             if (n > 0) { if (rng.coin()) H[h][i] = v; else H[h].setAt(i, v); } os << "set:" << h << ":" << i << ":" << v; }
       else if (what == 4) { int h = pick(); int v = (int)rng.range(-99, 99); H[h].push_back(v); os << "push:" << h << ":" << v; }
       else if (what == 5) { int h = pick(); int n = (int)rng.range(0, 5); H[h].resize(n); os << "resize:" << h << ":" << n; }
-      else { int h = pick(), g = pick(); H[h].swap(H[g]); os << "swap:" << h << ":" << g; }
+      else if (what == 6) { int h = pick(), g = pick(); H[h].swap(H[g]); os << "swap:" << h << ":" << g; }
+      else if (what == 7) { int h = pick(); H[h].clear(); os << "clear:" << h; }
+      else if (what == 8) { int h = pick(); int v = (int)rng.range(-9, 9); int n = rng.coin() ? 0 : (int)rng.range(1, 4); H[h].fill(v, n); os << "fill:" << h << ":" << v << ":" << n; }
+      else if (what == 9) { int h = pick(); int n = (int)H[h].size(); int i = (int)rng.range(0, n); int v = (int)rng.range(-99, 99); H[h].insert(i, v); os << "insert:" << h << ":" << i << ":" << v; }
+      else if (what == 10) { int h = pick(); int n = (int)H[h].size(); if (n > 0) { int i = (int)rng.range(0, n - 1); H[h].remove(i); os << "remove:" << h << ":" << i; } else { H[h].push_front(7); os << "pushfront:" << h << ":7"; } }
+      else if (what == 11) { int h = pick(); int v = (int)rng.range(-99, 99); H[h].push_front(v); os << "pushfront:" << h << ":" << v; }
+      else if (what == 12) { int h = pick(); int v = (int)rng.range(-99, 99); bool fr = rng.coin(); if (!H[h].empty()) { if (fr) H[h].front() = v; else H[h].back() = v; } os << (fr ? "front:" : "back:") << h << ":" << v; }
+      else if (what == 13) { int h = pick(), g = pick(); std::vector<int> w(H[g].begin(), H[g].end()); VectorInt wc(w); H[h] << wc; os << "append:" << h << ":" << vecI(w); }
+      else { int h = pick(); int n = (int)H[h].size(); int v = (int)rng.range(-99, 99); if (n > 0) { int i = (int)rng.range(0, n - 1); if (rng.coin()) H[h].at(i) = v; else *(H[h].begin() + i) = v; os << "set:" << h << ":" << i << ":" << v; } else { H[h] << v; os << "push:" << h << ":" << v; } }
       ops += (k ? ";" : "") + os.str();
-      st.hit(std::string("cow_") + (what == 0 ? "new" : what == 1 ? "copy" : what == 2 ? "assign" : what == 3 ? "set" : what == 4 ? "push" : what == 5 ? "resize" : "swap"));
+      { static const char* nm[] = {"new", "copy", "assign", "set", "push", "resize", "swap", "clear", "fill", "insert", "remove", "push_front", "front_back", "append", "at_iterator"}; st.hit(std::string("cow_") + nm[what]); }
     }
     std::string obs;
     for (size_t h = 0; h < H.size(); h++) { std::vector<int> v(H[h].begin(), H[h].end()); obs += (h ? "|" : "") + vecI(v); }
